@@ -45,18 +45,18 @@ Proof.
   destruct (String.eqb_spec tag "Msg") as [->|N1].
   { simpl. destruct b; simpl; rewrite ?app_nil_r; try reflexivity.
     destruct (p_msg p); simpl; rewrite ?app_nil_r; try reflexivity.
-    destruct (msg_kind_of_string kind_name); simpl; rewrite ?app_nil_r; try reflexivity.
-    destruct (match reply_on with Some r => reply_on_of_string r | None => Some ROAlways end); simpl; rewrite ?app_nil_r; reflexivity. }
+    all: try (destruct (msg_kind_of_string kind_name); simpl; rewrite ?app_nil_r; try reflexivity).
+    all: try (destruct (match reply_on with Some r => reply_on_of_string r | None => Some ROAlways end); simpl; rewrite ?app_nil_r; reflexivity). }
   destruct (String.eqb_spec tag "VariantAttrs") as [->|N2].
   { simpl. destruct b; simpl; rewrite ?app_nil_r; reflexivity. }
   destruct (String.eqb_spec tag "MsgAttrs") as [->|N3].
   { destruct b; simpl; rewrite ?app_nil_r; try reflexivity.
-    destruct (msg_attr_kind_of_string kind_name); simpl; rewrite ?app_nil_r; reflexivity. }
+    all: try (destruct (msg_attr_kind_of_string kind_name); simpl; rewrite ?app_nil_r; reflexivity). }
   destruct (String.eqb_spec tag "Messages") as [->|N4].
   { destruct b; simpl; rewrite ?app_nil_r; reflexivity. }
   destruct (String.eqb_spec tag "OverrideEntryPoint") as [->|N5].
   { destruct b; simpl; rewrite ?app_nil_r; try reflexivity.
-    destruct (override_kind_of_string kind_name); simpl; rewrite ?app_nil_r; reflexivity. }
+    all: try (destruct (override_kind_of_string kind_name); simpl; rewrite ?app_nil_r; reflexivity). }
   destruct (String.eqb_spec tag "Custom") as [->|N6].
   { destruct b; simpl; rewrite ?app_nil_r; try reflexivity. destruct (p_custom p); simpl; rewrite ?app_nil_r; reflexivity. }
   destruct (String.eqb_spec tag "Error") as [->|N7].
@@ -71,7 +71,7 @@ Proof.
   destruct (String.eqb_spec tag "Payload") as [->|N10].
   { destruct b; simpl; rewrite ?app_nil_r; try reflexivity.
     destruct flags as [|f [|? ?]]; simpl; rewrite ?app_nil_r; try reflexivity.
-    destruct (payload_flag_of_string f); simpl; rewrite ?app_nil_r; reflexivity. }
+    all: try (destruct (payload_flag_of_string f); simpl; rewrite ?app_nil_r; reflexivity). }
   rewrite app_nil_r. reflexivity.
 Qed.
 
@@ -83,18 +83,18 @@ Proof.
   destruct (String.eqb_spec tag "Msg") as [->|N1].
   { simpl. destruct b; simpl; rewrite ?app_nil_r; try reflexivity.
     destruct (p_msg p); simpl; rewrite ?app_nil_r; try reflexivity.
-    destruct (msg_kind_of_string kind_name); simpl; rewrite ?app_nil_r; try reflexivity.
-    destruct (match reply_on with Some r => reply_on_of_string r | None => Some ROAlways end); simpl; rewrite ?app_nil_r; reflexivity. }
+    all: try (destruct (msg_kind_of_string kind_name); simpl; rewrite ?app_nil_r; try reflexivity).
+    all: try (destruct (match reply_on with Some r => reply_on_of_string r | None => Some ROAlways end); simpl; rewrite ?app_nil_r; reflexivity). }
   destruct (String.eqb_spec tag "VariantAttrs") as [->|N2].
   { simpl. destruct b; simpl; rewrite ?app_nil_r; reflexivity. }
   destruct (String.eqb_spec tag "MsgAttrs") as [->|N3].
   { destruct b; simpl; rewrite ?app_nil_r; try reflexivity.
-    destruct (msg_attr_kind_of_string kind_name); simpl; rewrite ?app_nil_r; reflexivity. }
+    all: try (destruct (msg_attr_kind_of_string kind_name); simpl; rewrite ?app_nil_r; reflexivity). }
   destruct (String.eqb_spec tag "Messages") as [->|N4].
   { destruct b; simpl; rewrite ?app_nil_r; reflexivity. }
   destruct (String.eqb_spec tag "OverrideEntryPoint") as [->|N5].
   { destruct b; simpl; rewrite ?app_nil_r; try reflexivity.
-    destruct (override_kind_of_string kind_name); simpl; rewrite ?app_nil_r; reflexivity. }
+    all: try (destruct (override_kind_of_string kind_name); simpl; rewrite ?app_nil_r; reflexivity). }
   destruct (String.eqb_spec tag "Custom") as [->|N6].
   { destruct b; simpl; rewrite ?app_nil_r; try reflexivity. destruct (p_custom p); simpl; rewrite ?app_nil_r; reflexivity. }
   destruct (String.eqb_spec tag "Error") as [->|N7].
@@ -109,7 +109,7 @@ Proof.
   destruct (String.eqb_spec tag "Payload") as [->|N10].
   { destruct b; simpl; rewrite ?app_nil_r; try reflexivity.
     destruct flags as [|f [|? ?]]; simpl; rewrite ?app_nil_r; try reflexivity.
-    destruct (payload_flag_of_string f); simpl; rewrite ?app_nil_r; reflexivity. }
+    all: try (destruct (payload_flag_of_string f); simpl; rewrite ?app_nil_r; reflexivity). }
   rewrite app_nil_r. reflexivity.
 Qed.
 
